@@ -51,6 +51,9 @@ def run(ctx: Context) -> None:
     from . import c18
     ctx.rule_any(c18.r1_semantic, c18.r1_monotone)
     ctx.rule(c18.r1_writers)
+    # "the loss recorded for a row is the loss of that row's simulation": an evaluation leaves nothing behind for the next one (state rule of C08 / C07)
+    from . import c08 as _c08
+    ctx.rule(_c08.r2_no_state)
 
 
 # ---------------------------------------------------------------------------------------------- R1
